@@ -1,8 +1,8 @@
 (* C13 - assembling the three parts of the statement. *)
-From Coq Require Import List Arith Bool Lia.
+From Coq Require Import List Arith Bool Lia Permutation.
 Import ListNotations.
 Require Import PV.Pratt.Syntax PV.Pratt.Model PV.Pratt.Climber PV.Pratt.Shunt.
-Require Import PV.Pratt.Proofs PV.Pratt.ClimberProofs PV.Pratt.TableProofs PV.Pratt.WfRegex.
+Require Import PV.Pratt.Proofs PV.Pratt.ClimberProofs PV.Pratt.TableProofs PV.Pratt.WfRegex PV.Pratt.Ctors.
 Set Implicit Arguments.
 
 (* (1) any table with positive levels, any well-formed sequence *)
@@ -65,4 +65,43 @@ Proof.
   { unfold well_formed in *. rewrite <- (@wf_relabel A climb_level _ _ R true ts). exact W. }
   destruct (@climber_correct A _ Un ts W') as (t' & Ec & Sc).
   rewrite (@shunt_relabel A climb_level climb_level_le _ _ R ts) in S. rewrite S in Sc. inversion Sc; subst. exact Ec.
+Qed.
+
+(* (4) PrecClimber::new_const on any slice: entries in any order, any precedence values *)
+Theorem climber_const : forall (A : Type) (c : climber), cuniform_slice c ->
+  forall ts : list (tok A), well_formed (table_of (climber_get (climber_new_const c))) ts = true ->
+  exists t, climb (climber_get (climber_new_const c)) ts = Ok t [] /\
+            shunt (table_of (climber_get (climber_new_const c))) ts = Some t /\
+            (table_pos (table_of (climber_get (climber_new_const c))) ->
+             pratt_parse all_maps (table_of (climber_get (climber_new_const c))) ts = Ok t [] /\ yield t = ts) /\
+            (forall c', NoDup (map fst c) -> Permutation c c' ->
+                        climb (climber_get (climber_new_const c')) ts = Ok t []).
+Proof.
+  intros A c U ts W.
+  destruct (@climber_const_correct A c U ts W) as (t & E & S & P).
+  exists t. split; [exact E|]. split; [exact S|]. split; [|exact P].
+  intros Pos. destruct (@pratt_correct A all_maps _ Pos eq_refl ts W) as (t' & E' & Y' & S').
+  rewrite S in S'. inversion S' as [Et]. rewrite <- Et in *. split; [exact E'|exact Y'].
+Qed.
+
+(* (5) prec_climber![..] = PrecClimber::new of the same declaration, hence = PrattParser::op of it *)
+Theorem climber_macro_builder : forall (A : Type) (d : list mlevel), NoDup (flat_map mrules d) ->
+  climber_macro d = climber_new (cdecl_of_macro d) /\
+  forall ts : list (tok A), well_formed (builder_get (builder_table (pratt_decl (cdecl_of_macro d)))) ts = true ->
+  exists t, pratt_parse all_maps (builder_get (builder_table (pratt_decl (cdecl_of_macro d)))) ts = Ok t [] /\
+            climb (climber_get (climber_macro d)) ts = Ok t [].
+Proof.
+  intros A d ND. split; [apply climber_macro_is_new|].
+  intros ts W. rewrite climber_macro_is_new.
+  apply climber_builder; [rewrite crules_of_macro; exact ND|apply cdecl_of_macro_uniform|exact W].
+Qed.
+
+(* (6) ConstPrattParser::new_const on any array it accepts *)
+Theorem const_any_array : forall (A : Type) (ops : list (level * bool)) (ct : const_table), new_const ops = inl ct ->
+  table_pos (const_get ct) /\
+  forall ts : list (tok A), well_formed (const_get ct) ts = true ->
+  exists t, pratt_parse all_maps (const_get ct) ts = Ok t [] /\ yield t = ts /\ shunt (const_get ct) ts = Some t.
+Proof.
+  intros A ops ct H. pose proof (new_const_table_pos _ H) as Pos. split; [exact Pos|].
+  intros ts W. exact (@pratt_correct A all_maps _ Pos eq_refl ts W).
 Qed.
